@@ -197,6 +197,63 @@ theorem interp_cancel_stops (rows : List Gen.OpRow) (hr : rows ∈ extractedTabl
     (hn : env.code.length - s.pc < n) : ∀ s', run env n s ≠ .next s' :=
   run_abort_halts ha (stopOK_sound (extracted_ok rows hr).2 he) n s hn
 
+/-! ### C01 at the loop level: on go-ethereum's own tables the Artela tracer is invisible -/
+
+/-- no row of the list is a journal instruction -/
+def stdOK (rows : List Gen.OpRow) : Bool :=
+  rows.all fun r => match decode r.exec r.op with | some i => !i.isJournal | none => true
+
+theorem stdOK_sound {rows : List Gen.OpRow} (h : stdOK rows = true) {env : IEnv World} (he : env.table = tableOf rows) : StdTable env := by
+  intro op row i hr hd
+  rw [he] at hr
+  obtain ⟨r, hm, hop, htr⟩ := tableOf_some hr
+  have := List.all_eq_true.mp h r hm
+  subst hop
+  have hd' : decode r.exec r.op = some i := by rw [← htr] at hd; exact hd
+  rw [hd'] at this
+  simpa using this
+
+theorem std_ok_Frontier : stdOK Gen.upFrontier = true := by decide +kernel
+theorem std_ok_Homestead : stdOK Gen.upHomestead = true := by decide +kernel
+theorem std_ok_TangerineWhistle : stdOK Gen.upTangerineWhistle = true := by decide +kernel
+theorem std_ok_SpuriousDragon : stdOK Gen.upSpuriousDragon = true := by decide +kernel
+theorem std_ok_Byzantium : stdOK Gen.upByzantium = true := by decide +kernel
+theorem std_ok_Constantinople : stdOK Gen.upConstantinople = true := by decide +kernel
+theorem std_ok_Petersburg : stdOK Gen.upPetersburg = true := by decide +kernel
+theorem std_ok_Istanbul : stdOK Gen.upIstanbul = true := by decide +kernel
+theorem std_ok_Berlin : stdOK Gen.upBerlin = true := by decide +kernel
+theorem std_ok_London : stdOK Gen.upLondon = true := by decide +kernel
+theorem std_ok_Merge : stdOK Gen.upMerge = true := by decide +kernel
+theorem std_ok_Shanghai : stdOK Gen.upShanghai = true := by decide +kernel
+
+/-- the instruction tables of go-ethereum v1.12.0, Frontier … Shanghai (equal to the fork's outside 0xe0–0xe7: `tables_agree_*`) -/
+def upstreamTables : List (List Gen.OpRow) := [Gen.upFrontier, Gen.upHomestead, Gen.upTangerineWhistle, Gen.upSpuriousDragon, Gen.upByzantium, Gen.upConstantinople, Gen.upPetersburg, Gen.upIstanbul, Gen.upBerlin, Gen.upLondon, Gen.upMerge, Gen.upShanghai]
+
+theorem upstream_std : ∀ rows ∈ upstreamTables, stdOK rows = true := by
+  intro rows h
+  simp only [upstreamTables, List.mem_cons, List.mem_nil_iff, or_false] at h
+  rcases h with h | h | h | h | h | h | h | h | h | h | h | h <;> subst h
+  · exact std_ok_Frontier
+  · exact std_ok_Homestead
+  · exact std_ok_TangerineWhistle
+  · exact std_ok_SpuriousDragon
+  · exact std_ok_Byzantium
+  · exact std_ok_Constantinople
+  · exact std_ok_Petersburg
+  · exact std_ok_Istanbul
+  · exact std_ok_Berlin
+  · exact std_ok_London
+  · exact std_ok_Merge
+  · exact std_ok_Shanghai
+
+/-- **C01 (interpreter loop)**: on every instruction table of go-ethereum v1.12.0 — that is, for every program over the standard
+    instruction set — a run does not depend on the state-change tracer and call-tree recorder it carries along: from two states
+    that differ in the tracer only, every iteration count gives results that differ in the tracer only. -/
+theorem interp_tracer_invisible (rows : List Gen.OpRow) (hr : rows ∈ upstreamTables) (env : IEnv World)
+    (he : env.table = tableOf rows) (n : Nat) (x : Tracer) (s : IState World) :
+    run env n (s.setTr x) = (run env n s).setTr x :=
+  run_setTr_std (stdOK_sound (upstream_std rows hr) he) n x s
+
 /-- non-vacuity: a concrete environment on the Cancun table meets the hypotheses, and a program runs on it -/
 def demoEnv : IEnv Unit :=
   { code := [0x60, 0x02, 0x60, 0x03, 0x01, 0x60, 0x00, 0x52, 0x60, 0x20, 0x60, 0x00, 0xf3], input := [], vals := fun _ => 0, abort := false,
